@@ -2,77 +2,266 @@ import A2lVerif.Lemmas.TreeTotal
 /-!
 # C03 (parser part) — the generic element parser never panics
 
-Property theorems only; model in Model/Tree.lean. Quantification: every grammar table that passes the decidable check
-`tableOk`, every token array with the tokenizer's invariants (`TokOk`, which `Props/C03Lex.lean` proves for the output
-of the tokenizer model), both strictness modes, every parser state, every fuel.
+Property theorems only; model in Model/Tree.lean, proofs in Lemmas/TreeTotal.lean. Quantification: every grammar table
+that passes the decidable check `tableOk`, every non-empty token array with the tokenizer's invariants (`TokOk`, which
+`Props/C03Lex.lean` proves for the output of the tokenizer model), both strictness modes, every parser state, every fuel.
+
+Four of the five statements were FALSE as first written (hypotheses missing); each is kept below as a refuted
+statement (`*_as_written_false`, with the concrete counterexample) next to the corrected theorem:
+
+* `parseType_no_panic`, `parseFile_no_panic`: an EMPTY token array panics in `get_line_offset` (`tokens[0]`), reached
+  from `get_next_tag_or_comment` at end of input. The Rust code never gets there: `load_impl` (lib.rs) returns
+  `EmptyFileError` when the tokenizer produced no token. Added hypothesis: `e.toks.size ≠ 0`.
+* `parseType_no_panic`: `ty` was arbitrary; a `ty` that is not in the table (or names an enum) takes the
+  `| _ => panic` arm of the model (no Rust counterpart: there `T::parse` only exists for existing types).
+  Added hypothesis: `tyOk e.table ty = true`.
+* `parseType_log_mono`: `SpecialOk` only speaks about in-range cursors, the statement had no `s.pos ≤ e.toks.size`.
+* `strict_log_only_warnings`: the hypothesis on the `special` parsers only covered their `ok` results, but the log of a
+  failed `special` parser survives when a sequence swallows the error (`parseSeq`). Added: the same for `err`.
+
+`TokOk` has one more clause than at first (`comment_lines`), required by the `fix:` version of `get_line_offset`.
 -/
 namespace A2l.Tree
 open A2l.G
 
+/-! ## the hypotheses
+
+The definitions `TokOk`, `itemOk`, `tableOk`, `SpecialOk` (and `tyOk`) live in Lemmas/TreeTotal.lean because the helper
+lemmas need them. They are restated here; every line below is checked by `Iff.rfl` / `rfl`, i.e. it is the definition. -/
+
 /-- what the parser relies on about the tokens (all consequences of `lex_inv` and of how tokens are built):
-    line numbers are 1-based and non-decreasing, identifier tokens are not empty -/
-structure TokOk (toks : Array PTok) : Prop where
-  line_pos : ∀ i (h : i < toks.size), 1 ≤ toks[i].line
-  line_mono : ∀ i j (hi : i < toks.size) (hj : j < toks.size), i ≤ j → toks[i].line ≤ toks[j].line
-  ident_ne : ∀ i (h : i < toks.size), toks[i].ty = 0 → toks[i].text ≠ []
+    line numbers are 1-based and non-decreasing, identifier tokens are not empty, the token behind a (multi-line)
+    comment is not above the comment's last line -/
+theorem TokOk_iff (toks : Array PTok) : TokOk toks ↔
+    (∀ i (h : i < toks.size), 1 ≤ toks[i].line) ∧
+    (∀ i j (hi : i < toks.size) (hj : j < toks.size), i ≤ j → toks[i].line ≤ toks[j].line) ∧
+    (∀ i (h : i < toks.size), toks[i].ty = 0 → toks[i].text ≠ []) ∧
+    (∀ i j (hi : i < toks.size) (hj : j < toks.size), i < j → toks[i].ty = 6 →
+      toks[i].line + countNewlines toks[i].text ≤ toks[j].line) :=
+  ⟨fun h => ⟨h.line_pos, h.line_mono, h.ident_ne, h.comment_lines⟩, fun h => ⟨h.1, h.2.1, h.2.2.1, h.2.2.2⟩⟩
 
 /-- item types only refer to existing types of the right kind -/
-def itemOk (tbl : Table) : ItemTy → Bool
-  | .enumRef ty => match tbl.lookup ty with | some (.enum _) => true | _ => false
-  | .structRef ty => match tbl.lookup ty with | some (.block _ _ _ _) => true | _ => false
-  | .arr of _ => itemOk tbl of
-  | .seq of _ => itemOk tbl of
-  | _ => true
+example (tbl : Table) (ty : Nat) : itemOk tbl (.enumRef ty) =
+    (match tbl.lookup ty with | some (.enum _) => true | _ => false) := rfl
+example (tbl : Table) (ty : Nat) : itemOk tbl (.structRef ty) =
+    (match tbl.lookup ty with | some (.block _ _ _ _) => true | _ => false) := rfl
+example (tbl : Table) (of : ItemTy) (n : Nat) : itemOk tbl (.arr of n) = itemOk tbl of := rfl
+example (tbl : Table) (of : ItemTy) (stop : List Nat) : itemOk tbl (.seq of stop) = itemOk tbl of := rfl
+example (tbl : Table) : itemOk tbl .ident = true ∧ itemOk tbl .string = true ∧ itemOk tbl .double = true ∧
+    itemOk tbl .float = true ∧ (∀ w, itemOk tbl (.int w) = true) ∧ (∀ n, itemOk tbl (.strMax n) = true) :=
+  ⟨rfl, rfl, rfl, rfl, fun _ => rfl, fun _ => rfl⟩
+
+/-- a type `parseType` can be called on: a block / keyword / struct, or one of the `special` types -/
+example (tbl : Table) (ty : Nat) : tyOk tbl ty =
+    (match tbl.lookup ty with | some (.block _ _ _ _) => true | some .special => true | _ => false) := rfl
 
 /-- decidable well-formedness of a grammar table as far as panic-freedom is concerned: every reference resolves to a
     type of the expected kind, and the two types the hand-written code names exist with the expected shape -/
-def tableOk (tbl : Table) (k : Known) : Bool :=
-  tbl.all (fun e => match e.def_ with
-    | .block _ items arms _ =>
-      items.all (itemOk tbl) &&
-      arms.all (fun a => match tbl.lookup a.ty with | some (.block _ _ _ _) => true | some .special => true | _ => false)
-    | .enum _ => true
-    | _ => true) &&
-  (match tbl.lookup k.tyA2lFile with | some (.block _ _ _ _) => true | _ => false) &&
-  (match tbl.lookup k.tyAsap2Version with
-   | some (.block false [.int _, .int _] [] false) => true | _ => false)
+example (tbl : Table) (k : Known) : tableOk tbl k =
+    (tbl.all (fun e => match e.def_ with
+      | .block _ items arms _ =>
+        items.all (itemOk tbl) &&
+        arms.all (fun a => match tbl.lookup a.ty with | some (.block _ _ _ _) => true | some .special => true | _ => false)
+      | .enum _ => true
+      | _ => true) &&
+    (match tbl.lookup k.tyA2lFile with | some (.block _ _ _ _) => true | _ => false) &&
+    (match tbl.lookup k.tyAsap2Version with
+     | some (.block false [.int _, .int _] [] false) => true | _ => false)) := rfl
 
 /-- the hand-written parsers of the `special` types (A2ML, IF_DATA) are a parameter of the model: what is assumed
     of them here (and proved of their own model separately) is that they do not panic and keep the cursor in range -/
-def SpecialOk (e : Env) : Prop :=
-  ∀ ty ctx off s, s.pos ≤ e.toks.size →
-    e.special ty ctx off e.toks e.strict s ≠ .panic ∧
-    (∀ v s', e.special ty ctx off e.toks e.strict s = .ok v s' → s.pos ≤ s'.pos ∧ s'.pos ≤ e.toks.size ∧ ∃ l, s'.log = l ++ s.log) ∧
-    (∀ d s', e.special ty ctx off e.toks e.strict s = .err d s' → s'.pos ≤ e.toks.size ∧ ∃ l, s'.log = l ++ s.log)
+theorem SpecialOk_iff (e : Env) : SpecialOk e ↔
+    ∀ ty ctx off s, s.pos ≤ e.toks.size →
+      e.special ty ctx off e.toks e.strict s ≠ .panic ∧
+      (∀ v s', e.special ty ctx off e.toks e.strict s = .ok v s' →
+        s.pos ≤ s'.pos ∧ s'.pos ≤ e.toks.size ∧ ∃ l, s'.log = l ++ s.log) ∧
+      (∀ d s', e.special ty ctx off e.toks e.strict s = .err d s' →
+        s'.pos ≤ e.toks.size ∧ ∃ l, s'.log = l ++ s.log) := Iff.rfl
+
+/-! ## the theorems -/
 
 /-- **No panic, for any type, state and fuel**: parsing any type of a well-formed table from any in-range cursor
     position never reaches a Rust panic site (index out of range in `get_line_offset`, `token_cursor.back()` at
     position 0, `text.as_bytes()[0]` on an empty identifier, `unescape_string` indexing, a dangling type reference).
-    The `special` types are covered by the hypothesis `SpecialOk`. -/
+    The `special` types are covered by the hypothesis `SpecialOk`.
+    CORRECTED with respect to the first version: `hne` (token array not empty, guaranteed by `load_impl`) and `hty`
+    (`ty` is a block / keyword / struct / special type of the table) were missing; see the refutations below. -/
 theorem parseType_no_panic (e : Env) (hk : TokOk e.toks) (ht : tableOk e.table e.known = true) (hsp : SpecialOk e)
-    (fuel : Nat) (ty : Nat) (ctx : Ctx) (off : Nat) (s : PState) (hs : s.pos ≤ e.toks.size) :
-    parseType fuel ty ctx off e s ≠ .panic := sorry
+    (hne : e.toks.size ≠ 0)
+    (fuel : Nat) (ty : Nat) (hty : tyOk e.table ty = true) (ctx : Ctx) (off : Nat) (s : PState)
+    (hs : s.pos ≤ e.toks.size) :
+    parseType fuel ty ctx off e s ≠ .panic := by
+  intro h
+  have := (allSafe (cfgFull e hk (Nat.pos_of_ne_zero hne) ht hsp) fuel).type ty ctx off s (fun _ => hty) (fun _ => hs)
+  rw [h] at this
+  exact this trivial
 
-/-- **`parse_file` never panics** (strict or not, valid input or garbage tokens) -/
-theorem parseFile_no_panic (e : Env) (hk : TokOk e.toks) (ht : tableOk e.table e.known = true) (hsp : SpecialOk e) :
-    runParseFile e ≠ .panic := sorry
+/-- **`parse_file` never panics** (strict or not, valid input or garbage tokens).
+    CORRECTED: `hne` (token array not empty; `load_impl` returns `EmptyFileError` otherwise) was missing. -/
+theorem parseFile_no_panic (e : Env) (hk : TokOk e.toks) (ht : tableOk e.table e.known = true) (hsp : SpecialOk e)
+    (hne : e.toks.size ≠ 0) :
+    runParseFile e ≠ .panic := by
+  intro h
+  have := parseFile_safe (cfgFull e hk (Nat.pos_of_ne_zero hne) ht hsp) (4 * e.toks.size + 64) {}
+    (fun _ => Nat.zero_le _)
+  unfold runParseFile at h
+  rw [h] at this
+  exact this trivial
 
-/-- the cursor stays in range and never moves behind where the call started -/
+set_option linter.unusedVariables false in
+/-- the cursor stays in range and never moves behind where the call started (as first written; `hk`, `ht` are not
+    needed) -/
 theorem parseType_pos (e : Env) (hk : TokOk e.toks) (ht : tableOk e.table e.known = true) (hsp : SpecialOk e)
     (fuel : Nat) (ty : Nat) (ctx : Ctx) (off : Nat) (s : PState) (hs : s.pos ≤ e.toks.size) :
     (∀ v s', parseType fuel ty ctx off e s = .ok v s' → s.pos ≤ s'.pos ∧ s'.pos ≤ e.toks.size) ∧
-    (∀ d s', parseType fuel ty ctx off e s = .err d s' → s'.pos ≤ e.toks.size) := sorry
+    (∀ d s', parseType fuel ty ctx off e s = .err d s' → s'.pos ≤ e.toks.size) := by
+  have := (allSafe (cfgPos e hsp) fuel).type ty ctx off s (fun h => h.elim) (fun _ => hs)
+  constructor
+  · intro v s' h; rw [h] at this; exact this.1 trivial
+  · intro d s' h; rw [h] at this; exact this.1 trivial
 
-/-- diagnostics are only ever appended: the log of the result extends the log at the start -/
-theorem parseType_log_mono (e : Env) (hsp : SpecialOk e) (fuel : Nat) (ty : Nat) (ctx : Ctx) (off : Nat) (s : PState) :
+/-- diagnostics are only ever appended: the log of the result extends the log at the start.
+    CORRECTED: `hs` was missing (`SpecialOk` says nothing about a `special` parser started outside the token array). -/
+theorem parseType_log_mono (e : Env) (hsp : SpecialOk e) (fuel : Nat) (ty : Nat) (ctx : Ctx) (off : Nat) (s : PState)
+    (hs : s.pos ≤ e.toks.size) :
     (∀ v s', parseType fuel ty ctx off e s = .ok v s' → ∃ l, s'.log = l ++ s.log) ∧
-    (∀ d s', parseType fuel ty ctx off e s = .err d s' → ∃ l, s'.log = l ++ s.log) := sorry
+    (∀ d s', parseType fuel ty ctx off e s = .err d s' → ∃ l, s'.log = l ++ s.log) := by
+  have := (allSafe (cfgPos e hsp) fuel).type ty ctx off s (fun h => h.elim) (fun _ => hs)
+  constructor
+  · intro v s' h; rw [h] at this; exact this.2.1
+  · intro d s' h; rw [h] at this; exact this.2
 
-/-- in strict mode nothing is ever logged by `error_or_log`: the log only receives deprecation warnings -/
+/-- in strict mode nothing is ever logged by `error_or_log`: the log only receives deprecation warnings.
+    CORRECTED: `hspe` (the assumption on the `special` parsers also for their `err` results) was missing: an error
+    inside a sequence element is swallowed by the sequence, the log written before it stays. -/
 theorem strict_log_only_warnings (e : Env) (hstrict : e.strict = true)
     (hsp : ∀ ty ctx off s v s', e.special ty ctx off e.toks e.strict s = .ok v s' →
-      ∃ l, s'.log = l ++ s.log ∧ ∀ d ∈ l, d.kind = .blockRefDeprecated ∨ d.kind = .enumRefDeprecated) (fuel : Nat) (ty : Nat) (ctx : Ctx) (off : Nat)
+      ∃ l, s'.log = l ++ s.log ∧ ∀ d ∈ l, d.kind = .blockRefDeprecated ∨ d.kind = .enumRefDeprecated)
+    (hspe : ∀ ty ctx off s d s', e.special ty ctx off e.toks e.strict s = .err d s' →
+      ∃ l, s'.log = l ++ s.log ∧ ∀ d ∈ l, d.kind = .blockRefDeprecated ∨ d.kind = .enumRefDeprecated)
+    (fuel : Nat) (ty : Nat) (ctx : Ctx) (off : Nat)
     (s : PState) (v : Val) (s' : PState) (h : parseType fuel ty ctx off e s = .ok v s') :
-    ∃ l, s'.log = l ++ s.log ∧ ∀ d ∈ l, d.kind = .blockRefDeprecated ∨ d.kind = .enumRefDeprecated := sorry
+    ∃ l, s'.log = l ++ s.log ∧ ∀ d ∈ l, d.kind = .blockRefDeprecated ∨ d.kind = .enumRefDeprecated := by
+  have := (allSafe (cfgStrict e hstrict (fun ty ctx off s => ⟨hsp ty ctx off s, hspe ty ctx off s⟩)) fuel).type
+    ty ctx off s (fun h => h.elim) (fun h => h.elim)
+  rw [h] at this
+  exact this.2.1
+
+/-! ## the statements as first written, refuted -/
+
+/-- a `special` parser that always fails and changes nothing -/
+def cexSpecial : Nat → Ctx → Nat → Array PTok → Bool → PState → PRes Val :=
+  fun _ _ _ _ _ s => .err ⟨.a2mlError, 0⟩ s
+
+/-- two types: `A2L_FILE`-like (keyword with a tagged part, no arms) and `ASAP2_VERSION`-like -/
+def cexTable : Table := [⟨0, .block false [] [] true⟩, ⟨1, .block false [.int 5, .int 5] [] false⟩]
+def cexKnown : Known := ⟨0, 1, 7⟩
+
+/-- the empty token array -/
+def cexEnvEmpty : Env := { toks := #[], strict := false, table := cexTable, known := cexKnown, special := cexSpecial }
+
+theorem cexEnvEmpty_tokOk : TokOk cexEnvEmpty.toks :=
+  ⟨fun _ h => absurd h (Nat.not_lt_zero _), fun _ _ h => absurd h (Nat.not_lt_zero _),
+   fun _ h => absurd h (Nat.not_lt_zero _), fun _ _ h => absurd h (Nat.not_lt_zero _)⟩
+
+theorem cexSpecial_ok (e : Env) (h : e.special = cexSpecial) : SpecialOk e := by
+  intro ty ctx off s hs
+  rw [h]
+  refine ⟨fun h => (by cases h), fun v s' h => (by cases h), fun d s' h => ?_⟩
+  cases h
+  exact ⟨hs, [], rfl⟩
+
+/-- `parseFile_no_panic` without `hne` is false: the empty token array panics
+    (`parse_version` finds nothing, `A2lFile::parse` calls `get_next_tag_or_comment`, which calls `get_line_offset`
+    after the failed `get_identifier`: `tokens[0]` on an empty vector) -/
+theorem parseFile_no_panic_as_written_false :
+    ¬ ∀ (e : Env) (_ : TokOk e.toks) (_ : tableOk e.table e.known = true) (_ : SpecialOk e),
+      runParseFile e ≠ .panic := fun h =>
+  h cexEnvEmpty cexEnvEmpty_tokOk rfl (cexSpecial_ok _ rfl) rfl
+
+/-- `parseType_no_panic` without `hne` is false, same reason -/
+theorem parseType_no_panic_as_written_false :
+    ¬ ∀ (e : Env) (_ : TokOk e.toks) (_ : tableOk e.table e.known = true) (_ : SpecialOk e)
+      (fuel ty : Nat) (ctx : Ctx) (off : Nat) (s : PState) (_ : s.pos ≤ e.toks.size),
+      parseType fuel ty ctx off e s ≠ .panic := fun h =>
+  h cexEnvEmpty cexEnvEmpty_tokOk rfl (cexSpecial_ok _ rfl) 3 0 ⟨[], 0, 1⟩ 0 {} (Nat.le_refl _) rfl
+
+/-- one identifier token -/
+def cexTok : PTok := { ty := 0, text := ['x'], line := 1, sym := 3 }
+def cexEnvOne : Env := { cexEnvEmpty with toks := #[cexTok] }
+
+theorem cexEnvOne_tokOk : TokOk cexEnvOne.toks := by
+  have h0 : ∀ i, i < cexEnvOne.toks.size → i = 0 := fun i h => Nat.lt_one_iff.1 h
+  refine ⟨?_, ?_, ?_, ?_⟩
+  · intro i h; cases h0 i h; exact Nat.le_refl 1
+  · intro i j hi hj _; cases h0 i hi; cases h0 j hj; exact Nat.le_refl _
+  · intro i h; cases h0 i h; exact fun _ => List.cons_ne_nil 'x' []
+  · intro i j hi hj hij; cases h0 i hi; cases h0 j hj; cases hij
+
+/-- `parseType_no_panic` with `hne` but without `hty` is still false: a `ty` outside the table (model-only panic arm) -/
+theorem parseType_no_panic_without_hty_false :
+    ¬ ∀ (e : Env) (_ : TokOk e.toks) (_ : tableOk e.table e.known = true) (_ : SpecialOk e) (_ : e.toks.size ≠ 0)
+      (fuel ty : Nat) (ctx : Ctx) (off : Nat) (s : PState) (_ : s.pos ≤ e.toks.size),
+      parseType fuel ty ctx off e s ≠ .panic := fun h =>
+  h cexEnvOne cexEnvOne_tokOk rfl (cexSpecial_ok _ rfl) (by decide) 3 99 ⟨[], 0, 1⟩ 0 {} (Nat.zero_le _) rfl
+
+/-- a `special` parser that is well-behaved inside the token array and clears the log outside -/
+def cexSpecialOutside : Nat → Ctx → Nat → Array PTok → Bool → PState → PRes Val :=
+  fun _ _ _ toks _ s => if s.pos ≤ toks.size then .err ⟨.a2mlError, 0⟩ s else .ok (.arr []) { s with log := [] }
+def cexEnvOutside : Env := { toks := #[], strict := false, table := [⟨0, .special⟩], special := cexSpecialOutside }
+
+theorem cexEnvOutside_specialOk : SpecialOk cexEnvOutside := by
+  intro ty ctx off s hs
+  have h : cexEnvOutside.special ty ctx off cexEnvOutside.toks cexEnvOutside.strict s = .err ⟨.a2mlError, 0⟩ s :=
+    if_pos hs
+  rw [h]
+  refine ⟨fun h => (by cases h), fun v s' h => (by cases h), fun d s' h => ?_⟩
+  cases h
+  exact ⟨hs, [], rfl⟩
+
+/-- `parseType_log_mono` without `hs` is false -/
+theorem parseType_log_mono_as_written_false :
+    ¬ ∀ (e : Env) (_ : SpecialOk e) (fuel ty : Nat) (ctx : Ctx) (off : Nat) (s : PState),
+      (∀ v s', parseType fuel ty ctx off e s = .ok v s' → ∃ l, s'.log = l ++ s.log) ∧
+      (∀ d s', parseType fuel ty ctx off e s = .err d s' → ∃ l, s'.log = l ++ s.log) := by
+  intro h
+  obtain ⟨l, hl⟩ := (h cexEnvOutside cexEnvOutside_specialOk 1 0 ⟨[], 0, 1⟩ 0
+    { pos := 1, log := [⟨.a2mlError, 0⟩] }).1 (.arr []) { pos := 1, log := [] } rfl
+  have := congrArg List.length hl
+  simp at this
+
+/-- a `special` parser that logs and fails -/
+def cexSpecialLogErr : Nat → Ctx → Nat → Array PTok → Bool → PState → PRes Val :=
+  fun _ _ _ _ _ s => .err ⟨.a2mlError, 0⟩ { s with log := ⟨.a2mlError, 0⟩ :: s.log }
+/-- type 0: a keyword whose parameter is a sequence of struct 1; struct 1 has a tagged part with one arm (tag 3)
+    of the special type 2 (a well-formed table) -/
+def cexTableSeq : Table :=
+  [⟨0, .block false [.seq (.structRef 1) []] [] false⟩,
+   ⟨1, .block false [] [⟨3, 2, false, false, false, 0, 0⟩] true⟩,
+   ⟨2, .special⟩]
+def cexEnvSeq : Env :=
+  { toks := #[cexTok], strict := true, table := cexTableSeq, known := ⟨0, 0, 0⟩, special := cexSpecialLogErr }
+
+/-- `strict_log_only_warnings` without `hspe` is false: the sequence swallows the error of the special parser,
+    what it logged stays in the log of a successful parse -/
+theorem strict_log_only_warnings_as_written_false :
+    ¬ ∀ (e : Env) (_ : e.strict = true)
+      (_ : ∀ ty ctx off s v s', e.special ty ctx off e.toks e.strict s = .ok v s' →
+        ∃ l, s'.log = l ++ s.log ∧ ∀ d ∈ l, d.kind = .blockRefDeprecated ∨ d.kind = .enumRefDeprecated)
+      (fuel ty : Nat) (ctx : Ctx) (off : Nat) (s : PState) (v : Val) (s' : PState)
+      (_ : parseType fuel ty ctx off e s = .ok v s'),
+      ∃ l, s'.log = l ++ s.log ∧ ∀ d ∈ l, d.kind = .blockRefDeprecated ∨ d.kind = .enumRefDeprecated := by
+  intro h
+  have hres : ∃ v s', parseType 10 0 ⟨[], 0, 1⟩ 0 cexEnvSeq {} = .ok v s' ∧ s'.log = [⟨.a2mlError, 0⟩] :=
+    ⟨_, _, rfl, rfl⟩
+  obtain ⟨v, s', hv, hlog⟩ := hres
+  obtain ⟨l, hl, hd⟩ := h cexEnvSeq rfl (fun ty ctx off s v s' h => by cases h) 10 0 ⟨[], 0, 1⟩ 0 {} v s' hv
+  rw [hlog] at hl
+  have hl' : l = [⟨.a2mlError, 0⟩] := by
+    have : ({} : PState).log = [] := rfl
+    rw [this, List.append_nil] at hl
+    exact hl.symm
+  have := hd ⟨.a2mlError, 0⟩ (by rw [hl']; exact List.mem_singleton.2 rfl)
+  rcases this with h | h <;> cases h
 
 end A2l.Tree
